@@ -123,7 +123,12 @@ def parse_dimacs(infile):
     line_counter = 0
     literal_buffer = []
 
-    for line in infile.readlines():
+    # Lines end with LF, CR LF or CR, whatever the file object makes of
+    # them (a file opened by name translates them all, the standard
+    # input does not)
+    text = infile.read().replace('\r\n', '\n').replace('\r', '\n')
+
+    for line in text.split('\n'):
 
         line_counter += 1
         # (blanks are the ASCII ones: python would also take U+001C,
